@@ -88,6 +88,9 @@ func (eval Evaluator) Add(op0 *rlwe.Ciphertext, op1 rlwe.Operand, opOut *rlwe.Ci
 
 		opOut.Resize(op0.Degree(), level)
 
+		// The result is at the scale of op0, whatever opOut held before.
+		opOut.Scale = op0.Scale
+
 		// Convertes the scalar to a complex RNS scalar
 		RNSReal, RNSImag := bigComplexToRNSScalar(eval.GetParameters().RingQ().AtLevel(level), &op0.Scale.Value, bignum.ToComplex(op1, eval.GetParameters().EncodingPrecision()))
 
@@ -183,6 +186,9 @@ func (eval Evaluator) Sub(op0 *rlwe.Ciphertext, op1 rlwe.Operand, opOut *rlwe.Ci
 		}
 
 		opOut.Resize(op0.Degree(), level)
+
+		// The result is at the scale of op0, whatever opOut held before.
+		opOut.Scale = op0.Scale
 
 		// Convertes the scalar to a complex RNS scalar
 		RNSReal, RNSImag := bigComplexToRNSScalar(eval.GetParameters().RingQ().AtLevel(level), &op0.Scale.Value, bignum.ToComplex(op1, eval.GetParameters().EncodingPrecision()))
